@@ -101,6 +101,8 @@ def run(mod, tier, seed, replay=None):
                 kind = f["kind"]
 
                 def still(c2, kind=kind):
+                    if hasattr(mod, "valid_case") and not mod.valid_case(c2):
+                        return False   # shrinking must stay inside the well-formed histories of the property
                     ff = pair.fails_one(c2)
                     if not ff or ff[0]["kind"] != kind:
                         return False
